@@ -123,6 +123,7 @@ _p('C02', 'exploration',
 
 _p('C03', 'exploration',
    [Part('graph', {'props': ['C03']}, configs=GRAPH_CFG, quick=24000, thorough=900000, name='graph/C03'),
+    Part('graph', {'props': ['C03'], 'ifaces_only': True}, configs=[(C, 1), (PY, 1)], quick=5000, thorough=150000, name='graph/C03/ifaces'),
     Part('graph', {'props': ['C03']}, configs=[(C_STRICT, 1), (PY_STRICT, 1)], quick=6000, thorough=200000, name='graph/C03/strict'),
     Part('graph', {'props': ['C03']}, configs=[(C_LEGACY, 1), (PY_LEGACY, 1)], quick=4000, thorough=100000, name='graph/C03/legacy')],
    rule='one case = one seeded rebasing history; after every op every __sro__/__iro__ is checked for validity and against CPython\'s '
